@@ -50,7 +50,7 @@ func init() {
 var c16Cmds = []string{"view", "view-raw", "diff", "copy", "sum", "sum-copy", "sum-diff", "generate"}
 var c16Windows = []string{"default", "past", "future", "beyond-archive0", "beyond-all", "degenerate", "inverted"}
 var c16TextOuts = []string{"none", "stdout", "file", "missing-dir", "directory", "dev-full", "stdout-full"}
-var c16Envs = []string{"ok", "src-missing", "src-truncated", "src-other-layout", "src-other-layout-points", "sources-differ-in-points", "src-corrupt-last-archive", "dest-other-layout-points", "dest-unwritable", "dest-missing", "dest-corrupt-method", "generate-dest-exists", "generate-no-fill"}
+var c16Envs = []string{"ok", "src-missing", "src-truncated", "src-other-layout", "src-other-layout-points", "sources-differ-in-points", "src-corrupt-last-archive", "src-remote-missing", "dest-other-layout-points", "dest-unwritable", "dest-missing", "dest-corrupt-method", "generate-dest-exists", "generate-no-fill"}
 
 type c16World struct {
 	root       string
@@ -147,7 +147,16 @@ func c16Eval(c *fw.Ctx, k c16Case) (sig, desc string, nontrivial bool, outcome s
 	other := LayoutByTag("L5")
 	otherFile := &BFile{L: wsp.Layout{Archs: other.Archs, Method: 2}, Rings: EmptyRings(wsp.Layout{Archs: other.Archs})}
 	srcFiles := []string{filepath.Join(sbase, "a.wsp"), filepath.Join(sbase, "it", "x", "a.wsp"), filepath.Join(sbase, "it", "x", "b.wsp")}
+	srcRel, itemPat := "a.wsp", "it/*"
 	switch k.Env {
+	case "src-remote-missing":
+		// the source is a server that has nothing under the asked names (no file, no item directory)
+		url, _ := c12Server(c)
+		if url == "" {
+			return "", "", false, "no-server"
+		}
+		sbase, srcRel, itemPat = url, "c16-none/a.wsp", "c16-none/it/*"
+		srcBroken = true
 	case "src-missing":
 		for _, f := range srcFiles {
 			os.Remove(f)
@@ -239,25 +248,25 @@ func c16Eval(c *fw.Ctx, k c16Case) (sig, desc string, nontrivial bool, outcome s
 	switch k.Cmd {
 	case "view":
 		cmd = &wcmd.ViewCommand{}
-		args = append(args, "-src-base", sbase, "-src", "a.wsp")
+		args = append(args, "-src-base", sbase, "-src", srcRel)
 	case "view-raw":
 		cmd = &wcmd.ViewRawCommand{}
-		args = append(args, "-src-base", sbase, "-src", "a.wsp")
+		args = append(args, "-src-base", sbase, "-src", srcRel)
 	case "diff":
 		cmd = &wcmd.DiffCommand{}
-		args = append(args, "-src-base", sbase, "-src", "a.wsp", "-dest-base", dbase)
+		args = append(args, "-src-base", sbase, "-src", srcRel, "-dest-base", dbase)
 	case "copy":
 		cmd = &wcmd.CopyCommand{}
-		args = append(args, "-src-base", sbase, "-src", "a.wsp", "-dest-base", dbase, "-agg-method", "sum", "-x-files-factor", "0", "-retentions", "1s:2s,2s:6s")
+		args = append(args, "-src-base", sbase, "-src", srcRel, "-dest-base", dbase, "-agg-method", "sum", "-x-files-factor", "0", "-retentions", "1s:2s,2s:6s")
 	case "sum":
 		cmd = &wcmd.SumCommand{}
-		args = append(args, "-src-base", sbase, "-item", "it/*", "-src", "*.wsp")
+		args = append(args, "-src-base", sbase, "-item", itemPat, "-src", "*.wsp")
 	case "sum-copy":
 		cmd = &wcmd.SumCopyCommand{}
-		args = append(args, "-src-base", sbase, "-item", "it/*", "-src", "*.wsp", "-dest-base", dbase, "-dest", "sum.wsp", "-agg-method", "sum", "-x-files-factor", "0", "-retentions", "1s:2s,2s:6s")
+		args = append(args, "-src-base", sbase, "-item", itemPat, "-src", "*.wsp", "-dest-base", dbase, "-dest", "sum.wsp", "-agg-method", "sum", "-x-files-factor", "0", "-retentions", "1s:2s,2s:6s")
 	case "sum-diff":
 		cmd = &wcmd.SumDiffCommand{}
-		args = append(args, "-src-base", sbase, "-item", "it/*", "-src", "*.wsp", "-dest-base", dbase, "-dest", "sum.wsp")
+		args = append(args, "-src-base", sbase, "-item", itemPat, "-src", "*.wsp", "-dest-base", dbase, "-dest", "sum.wsp")
 	case "generate":
 		cmd = &wcmd.GenerateCommand{}
 		args = append(args, "-dest", genDest, "-agg-method", "sum", "-retentions", "1s:2s,2s:6s", "-max", "5")
@@ -319,6 +328,9 @@ func c16Eval(c *fw.Ctx, k c16Case) (sig, desc string, nontrivial bool, outcome s
 		fault = "input-" + strings.TrimPrefix(k.Env, "src-")
 		if k.Env == "src-corrupt-last-archive" {
 			fault = "input-corrupt"
+		}
+		if k.Env == "src-remote-missing" {
+			fault = "input-missing" // judged like a missing local source
 		}
 	case (k.Env == "src-other-layout" || k.Env == "src-other-layout-points") && (k.Cmd == "diff" || k.Cmd == "copy" || k.Cmd == "sum-copy" || k.Cmd == "sum-diff"):
 		fault = "layout-mismatch"
